@@ -376,7 +376,7 @@ theorem freqStep_ok (sv1 : Bool) (P predictor w h nc : Nat) (s : Planes) (hs : S
         else freqPredicted (P : Int) (predictor : Int) (row : Int) (col : Int) (nbOf s c w row col))
       = predOf sv1 P predictor w s (row, col, c) := by
     simp only [predOf]
-    rw [freqPredicted_eq_enc, sv1FreqPredicted_eq _ _ _ _ (by omega) (by omega)]
+    rw [freqPredicted_eq_enc _ _ _ _ _ (by omega) (by omega), sv1FreqPredicted_eq _ _ _ _ (by omega) (by omega)]
   have hcat : (diffCategory (diffOf sv1 P predictor w s (row, col, c))).toNat
       = (symOf sv1 P predictor w s (row, col, c)).1 := by
     rw [diffCategory_eq' (diffOf sv1 P predictor w s (row, col, c)) (encDiff_range' _ _).1 (encDiff_range' _ _).2]
